@@ -5,10 +5,13 @@
    (anchor "must only record memory whose commit really succeeded"), a refused commit leaves the bookkeeping unchanged and is reported,
    and every page / arena range handed out as committed is accessible.  The range arithmetic is the regenerated
    `Gen.mi_segment_commit_mask` (liberal direction: Lemmas/C07Range.lean).
+   The segment-level statements are proved twice: over the hand-written model (compared with the code step by step) and over
+   `GenC.mi_segment_commit / _ensure_committed / _purge / _schedule_purge`, which are regenerated from src/segment.c on every run.
    Not modelled (covered by the fault enumeration on the real allocator only): the NULL propagation through segment / page / heap
    allocation, the retry after collect, thread metadata allocation, mmap / munmap refusals. -/
 import MiVerif.Model.Commit
 import MiVerif.Lemmas.C07Range
+import MiVerif.Lemmas.C07Gen
 
 namespace C07
 open CommitM
@@ -126,6 +129,39 @@ theorem alloc_accessible (s : Seg) (D size : Nat) (ok : Bool) (h : SInv s)
         · simp only [if_true]
           exact setR_in _ _ _ _ hi hn
     · cases hres
+
+/-! ### the same statements over the functions *generated from src/segment.c* (Gen/Commit.lean, extract/masktr.py): a change of the
+    source changes these definitions and the proofs are re-checked against what the code says now -/
+open GenC C07G in
+/-- generated `mi_segment_commit`: the commit mask never records a unit the OS did not grant, whatever the OS answers -/
+theorem generated_commit_keeps_invariant (σ : SegSt) (D size : Nat) (ok : Bool) (now d : Int) (g : Geo σ D size) (h : SInvG σ) :
+    SInvG (GenC.mi_segment_commit σ ((σ.base + D : Nat) : Int) (size : Int) ok now d).1 := gen_commit_inv σ D size ok now d g h
+
+open GenC C07G in
+/-- generated `mi_segment_commit`: a refused commit is reported (`false`) and leaves commit mask and accessibility as they were -/
+theorem generated_commit_refused (σ : SegSt) (p size : Int) (now d : Int) :
+    ((GenC.mi_segment_commit σ p size false now d).2 = false → (GenC.mi_segment_commit σ p size false now d).1 = σ) ∧
+    (GenC.mi_segment_commit σ p size false now d).1.commit = σ.commit ∧ (GenC.mi_segment_commit σ p size false now d).1.os = σ.os :=
+  gen_commit_refused σ p size now d
+
+open GenC C07G in
+theorem generated_purge_keeps_invariant (σ : SegSt) (D size : Nat) (nr og : Bool) (hon : og = true → nr = true) (g : Geo σ D size) (h : SInvG σ) :
+    SInvG (GenC.mi_segment_purge σ ((σ.base + D : Nat) : Int) (size : Int) nr og).1 := gen_purge_inv σ D size nr og hon g h
+
+open GenC C07G in
+theorem generated_schedule_purge_keeps_invariant (σ : SegSt) (D size : Nat) (delay : Int) (nr og : Bool) (now ext : Int) (tp : SegSt → SegSt)
+    (hon : og = true → nr = true) (htp : ∀ τ, SInvG τ → SInvG (tp τ)) (g : Geo σ D size) (h : SInvG σ) :
+    SInvG (GenC.mi_segment_schedule_purge σ ((σ.base + D : Nat) : Int) (size : Int) delay nr og now ext tp) :=
+  gen_schedule_inv σ D size delay nr og now ext tp hon htp g h
+
+open GenC C07G in
+/-- generated `mi_segment_ensure_committed` (what mi_segment_span_allocate calls before it hands out a page): if it answers `true`, every
+    byte of the block range lies in an accessible commit unit — after any history and with any answer of the OS -/
+theorem generated_ensure_committed_accessible (σ : SegSt) (D size : Nat) (ok : Bool) (now d : Int) (h : SInvG σ)
+    (hseg : σ.base + 33554432 < 2^64) (hin : D + size ≤ σ.slices * 65536) (hs : σ.slices ≤ 512) (hinfo : σ.info ≤ 512) (hsz : 0 < size)
+    (hres : (GenC.mi_segment_ensure_committed σ ((σ.base + D : Nat) : Int) (size : Int) ok now d).2 = true) :
+    ∀ x, D ≤ x → x < D + size → (GenC.mi_segment_ensure_committed σ ((σ.base + D : Nat) : Int) (size : Int) ok now d).1.os (x / 65536) = true :=
+  gen_ensure_accessible σ D size ok now d h hseg hin hs hinfo hsz hres
 
 /-! ### arena -/
 theorem aAlloc_inv (a : Arena) (i n : Nat) (commit ok : Bool) (h : AInv a) : AInv (aAlloc a i n commit ok).1 := by
